@@ -353,6 +353,14 @@ def group_c39(g, n):
                 continue
             out.append(case(op, "oper", [A_f(x)], p, "n"))
         elif op == "nint_distance":
+            c = r.random()
+            if c < 0.3:
+                # rationals (mpq) and ints: fractional parts on both sides of 1/2, near-integers, half-integers
+                q = r.choice([2, 3, 7, 8, 10, 1000, 2 ** r.randint(1, 80), 10 ** r.randint(1, 30), r.randint(2, 10 ** 6)])
+                whole = r.choice([0, 1, -1, r.randint(-10 ** 6, 10 ** 6), r.getrandbits(r.randint(1, 120)) * r.choice([1, -1])])
+                fr = r.choice([0, 1, q - 1, q // 2, q // 2 + 1, r.randint(0, q - 1), r.randint(0, q - 1)])
+                out.append(case(op, "oper", [cases.A_mq(whole * q + fr, q) if c < 0.25 else A_z(whole)], p, "n"))
+                continue
             if not x[1] and x != gen.FZERO:
                 continue
             if abs(x[2]) > 30000:
